@@ -101,6 +101,10 @@ func vnCheckWalk(ast *AST) {
 		if _, isVar := e.n.(*Var); isVar {
 			continue // the same *Var is legitimately held by several nodes
 		}
+		switch e.n.(type) {
+		case *EmptyStmt, *DebuggerStmt, *NewTargetExpr, *ImportMetaExpr:
+			continue // zero-size nodes: distinct nodes may share one address natively
+		}
 		for j := i + 1; j < len(rec.events); j++ {
 			vAssert(!(rec.events[j].enter && vnSameNode(rec.events[j].n, e.n)), "node-entered-twice")
 		}
